@@ -642,7 +642,7 @@ var devCodes = []string{"OK", "Unavailable", "Canceled", "DeadlineExceeded", "Pe
 func genScenario(r *rand.Rand, steps int, k int) (string, []string, func(w *world) string) {
 	kind := "clean"
 	switch {
-	case k%10 == 7:
+	case k%10 == 7 || k%10 == 4:
 		kind = "multi"
 	case k%10 == 8:
 		kind = "nil"
